@@ -27,7 +27,8 @@ class Rec:
 
     @property
     def label(self):
-        return self.l1 if self.l2 is None else "%s-%s" % (self.l1, self.l2)
+        # identity of the state: the label pair (never a joined string - 'a'+'b-c' and 'a-b'+'c' are different roads)
+        return (self.l1, self.l2)
 
 
 class Model:
